@@ -146,13 +146,22 @@ func c15map(hasType bool, ty string, mask int, extras map[string]any, form strin
 				dead = append(dead, k)
 			}
 		}
+		// (every other time the unwanted keys are deleted BEFORE the real ones are set, so that the real keys are
+		// added to a map that already carries dead slots)
+		if mask%2 == 0 {
+			for _, k := range dead {
+				om.Delete(k)
+			}
+		}
 		if decoded, derr := decodeText(string(b)); derr == nil {
 			if src, ok := decoded.(*ordered.MapSA); ok {
 				src.Range(func(k string, v any) error { om.Set(k, v); return nil })
 			}
 		}
 		for _, k := range dead {
-			om.Delete(k)
+			if _, live := m[k]; !live {
+				om.Delete(k)
+			}
 		}
 		doc := ordered.NewMap[string, any](0)
 		doc.Set("steps", []any{om})
